@@ -59,7 +59,7 @@ NoVals == [p \in Paths |-> Unset]
 
 AllFailKinds == {"invalid_enum_kw", "invalid_enum_file", "bad_type_kw",
                  "missing_file", "bad_toml", "bad_perf_path", "bad_engine_path",
-                 "bad_weather_dir", "null_perf_kw"}       \* null_perf_kw: a required path given as None
+                 "bad_weather_dir", "null_perf_kw", "bad_perf_path_abs", "bad_engine_path_abs"}       \* null_perf_kw: a required path given as None; *_abs: a missing file named by an ABSOLUTE path
 MutLevels == {"outer", "weather", "emissions"}
 
 VARIABLES configured,  \* is there an active configuration
